@@ -316,6 +316,147 @@ def run_hist(c, lp, config):
     return res
 
 
+def battery(lp, names, nsp, data):
+    """every conversion function for ONE point (the single-point converters and the vector ones)"""
+    import pandas as pd
+    arr = np.array(data, dtype=float).reshape(1, len(names))
+    obs = {}
+
+    def put(cid, fn):
+        obs[str(cid)] = attempt(lambda: enc_struct(fn()))
+    put(0, lambda: lp.numpy_array_to_live_points(arr, names, non_sampling_parameters=nsp))
+    put(1, lambda: lp.numpy_array_to_live_points(arr[0], names, non_sampling_parameters=nsp))
+    put(2, lambda: lp.empty_structured_array(1, names, non_sampling_parameters=nsp))
+    put(4, lambda: lp.parameters_to_live_point(list(data[0]), names, non_sampling_parameters=nsp))
+    put(5, lambda: lp.dataframe_to_live_points(pd.DataFrame(arr, columns=names), non_sampling_parameters=nsp))
+    put(6, lambda: lp.dict_to_live_points({k: [data[0][j]] for j, k in enumerate(names)}, non_sampling_parameters=nsp))
+    put(8, lambda: lp.dict_to_live_points({k: data[0][j] for j, k in enumerate(names)}, non_sampling_parameters=nsp))
+    return obs
+
+
+def run_staged(c, lp, config):
+    """all converters again after EVERY operation of the registry history, same names, same data"""
+    lp.reset_extra_live_points_parameters()
+    names, nsp = list(c["names"]), bool(c["nsp"])
+    data = [[b2f(b) for b in row] for row in c["data"]]
+    steps = []
+    for op in c["ops"]:
+        e = None
+        try:
+            do_hist([op], lp, config)
+        except Exception as ex:  # noqa: BLE001
+            e = err(ex)
+        steps.append({"obs": battery(lp, names, nsp, data), "op_error": e})
+    lp.reset_extra_live_points_parameters()
+    return {"steps": steps}
+
+
+SETTINGS = ("logl_dtype", "it_dtype", "it_default", "default_float_dtype", "default_float_value", "core_parameters")
+
+
+def run_preset(c, lp, config, Model):
+    """a NON-DEFAULT live-point configuration is set first; then a registry history.  After every operation:
+    every non-extra setting is what it was, newly built arrays follow it, and an array built before the
+    history is still readable by name and through the views."""
+    cl = config.livepoints
+    lp.reset_extra_live_points_parameters()
+    saved = {k: getattr(cl, k) for k in SETTINGS}
+    bad = []
+    try:
+        for k, v in c["preset"].items():
+            setattr(cl, k, b2f(v["f"]) if isinstance(v, dict) else v)
+        cl.reset_properties()
+
+        def settings():
+            out = {}
+            for k in SETTINGS:
+                v = getattr(cl, k)
+                out[k] = f2b(v) if isinstance(v, float) else (list(v) if isinstance(v, list) else v)
+            return out
+        want = settings()
+        names = list(c["names"])
+        fdt, idt = np.dtype(cl.default_float_dtype), np.dtype(cl.it_dtype)
+        data = np.array([[b2f(b) for b in row] for row in c["data"]], dtype=float)
+        cast = data.astype(fdt)
+
+        def same(a, b):
+            a, b = np.asarray(a), np.asarray(b)
+            return a.shape == b.shape and a.dtype == b.dtype and bool(np.all((a == b) | ((a != a) & (b != b))))
+
+        class M(Model):
+            def __init__(self, nm):
+                self.names = nm
+                self.bounds = {k: [-1.0, 1.0] for k in nm}
+
+            def log_prior(self, x):
+                return np.zeros(x.size)
+
+            def log_likelihood(self, x):
+                return np.zeros(x.size)
+        A0 = lp.numpy_array_to_live_points(data, names)
+        model = M(list(names))
+        model.unstructured_view(A0)
+        A0_bytes = A0.tobytes()
+
+        def check(step, label):
+            def no(what):
+                bad.append({"step": step, "after": label, "what": what})
+            got = settings()
+            for k in SETTINGS:
+                if got[k] != want[k]:
+                    no(f"setting:{k}: {want[k]!r} became {got[k]!r}")
+            # arrays built before stay readable by name and through both views
+            if A0.tobytes() != A0_bytes:
+                no("old-array:bytes changed")
+            for nm_, fn in (("live_points_to_array", lambda: lp.live_points_to_array(A0, names)),
+                            ("unstructured_view", lambda: lp.unstructured_view(A0, names)),
+                            ("Model.unstructured_view", lambda: model.unstructured_view(A0))):
+                try:
+                    v = fn()
+                    if not same(v, cast):
+                        no(f"old-array:{nm_}: returned {np.asarray(v).tolist()} ({np.asarray(v).dtype}) expected {cast.tolist()} ({cast.dtype})")
+                except Exception as ex:  # noqa: BLE001
+                    no(f"old-array:{nm_}: raised {type(ex).__name__}: {ex}")
+            # newly built arrays follow the configuration
+            ex_names = list(cl.extra_parameters)
+            for nm_, fn in (("numpy_array_to_live_points", lambda: lp.numpy_array_to_live_points(data, names)),
+                            ("parameters_to_live_point", lambda: lp.parameters_to_live_point(list(data[0]), names)),
+                            ("dict_to_live_points", lambda: lp.dict_to_live_points({k: data[0][j] for j, k in enumerate(names)})),
+                            ("empty_structured_array", lambda: lp.empty_structured_array(1, names))):
+                try:
+                    x = fn()
+                    if list(x.dtype.names) != names + list(want["core_parameters"]) + ex_names:
+                        no(f"new-array:{nm_}: fields {x.dtype.names}")
+                        continue
+                    for k in names:
+                        if x.dtype[k] != fdt:
+                            no(f"new-array:{nm_}: parameter {k} stored as {x.dtype[k]} with default_float_dtype={fdt}")
+                            break
+                    if x.dtype["it"] != idt or x.dtype["logL"] != np.dtype(cl.logl_dtype):
+                        no(f"new-array:{nm_}: it/logL stored as {x.dtype['it']}/{x.dtype['logL']}")
+                    if int(x["it"][0]) != int(want["it_default"]):
+                        no(f"new-array:{nm_}: it default {x['it'][0]} expected {want['it_default']}")
+                    dfl = np.array(b2f(want["default_float_value"]), dtype=fdt)
+                    if f2b(x["logP"][0]) != f2b(dfl):
+                        no(f"new-array:{nm_}: logP default {x['logP'][0]!r} expected {dfl!r}")
+                    if nm_ == "empty_structured_array" and f2b(x[names[0]][0]) != f2b(dfl):
+                        no(f"new-array:{nm_}: parameter default {x[names[0]][0]!r} expected {dfl!r}")
+                except Exception as ex:  # noqa: BLE001
+                    no(f"new-array:{nm_}: raised {type(ex).__name__}: {ex}")
+        check(-1, "preset")
+        for k, op in enumerate(c["ops"]):
+            try:
+                do_hist([op], lp, config)
+            except Exception as ex:  # noqa: BLE001
+                bad.append({"step": k, "after": op["op"], "what": f"history: raised {type(ex).__name__}: {ex}"})
+            check(k, op["op"])
+    finally:
+        for k, v in saved.items():
+            setattr(cl, k, v)
+        cl.reset()
+    return {"bad": bad[:12]}
+
+
 def main():
     logging.disable(logging.CRITICAL)
     cases = json.load(sys.stdin)
@@ -326,6 +467,10 @@ def main():
     for c in cases:
         if c["kind"] == "conv":
             out.append(run_conv(c, lp, config, Model))
+        elif c["kind"] == "staged":
+            out.append(run_staged(c, lp, config))
+        elif c["kind"] == "preset":
+            out.append(run_preset(c, lp, config, Model))
         else:
             out.append(run_hist(c, lp, config))
     json.dump(out, sys.stdout)
